@@ -15,14 +15,16 @@ Inductive fragref := FProbe | FReq (mid : nat) (slot : N).
 
 (* ghost fields (never read by the step functions): pm_seq numbers the requests of one client in
    arrival order; pc_sent / pc_hist log which request's reply was appended to the client's socket;
-   ps_written logs every fragment written to the backend socket, ps_taken counts consumed replies *)
-Record pmsg := { pm_client : nat; pm_sm : smsg; pm_reqs : list (N * bytes); pm_seq : nat }.
+   ps_written logs every fragment written to the backend socket together with the bytes written for
+   it, ps_taken counts consumed replies *)
+Record pmsg := { pm_client : nat; pm_sm : smsg; pm_reqs : list (N * bytes); pm_seq : nat;
+                 pm_moved : list N }.   (* ghost: slots of fragments that have been redirected *)
 Record pclient := { pc_open : bool; pc_left : bytes; pc_queue : list nat; pc_got : bytes;
                      pc_sent : nat; pc_hist : list (nat * bytes);
                      pc_closing : bool }.   (* QUIT received: close once the queue has been flushed *)
 Record pserver := { ps_open : bool; ps_addr : bytes; ps_slave : bool; ps_initializing : bool; ps_step : Z;
                     ps_left : bytes; ps_outq : list fragref; ps_inq : list fragref; ps_got : bytes;
-                    ps_written : list fragref; ps_taken : nat }.
+                    ps_written : list (fragref * bytes); ps_taken : nat }.
 Record ppool := { pp_addr : bytes; pp_slave : bool; pp_conns : list nat; pp_closed : bool; pp_dialable : bool }.
 Inductive ptask := TWrite (sid : nat) | TClose (sid : nat) | TProbe (sid : nat).
 
@@ -118,7 +120,7 @@ Definition flush_if_open (st : pst) (c : nat) : pst :=
 (* complete a request with a proxy error (finish_error of the merge model) *)
 Definition fail_msg (st : pst) (mid : nat) (e : bytes) : pst :=
   match lookup mid (msgs st) with
-  | Some m => set_msg st mid {| pm_client := pm_client m; pm_sm := finish_error (pm_sm m) e; pm_reqs := pm_reqs m; pm_seq := pm_seq m |}
+  | Some m => set_msg st mid {| pm_client := pm_client m; pm_sm := finish_error (pm_sm m) e; pm_reqs := pm_reqs m; pm_seq := pm_seq m; pm_moved := pm_moved m |}
   | None => st
   end.
 
@@ -267,7 +269,7 @@ Definition local_reply (st : pst) (c : nat) (m : cmsg) (out : bytes) (close : bo
             let mid := next_mid st in
             let sm := {| sm_type := cm_type m; sm_keys := cm_keys m; sm_frags := []; sm_done_number := 0; sm_del_num := 0;
                          sm_done := true; sm_rsp := out; sm_error := [] |} in
-            let st' := bump_mid (set_msg st mid {| pm_client := c; pm_sm := sm; pm_reqs := []; pm_seq := pc_sent cl |}) in
+            let st' := bump_mid (set_msg st mid {| pm_client := c; pm_sm := sm; pm_reqs := []; pm_seq := pc_sent cl; pm_moved := [] |}) in
             set_client st' c {| pc_open := pc_open cl; pc_left := pc_left cl; pc_queue := pc_queue cl ++ [mid]; pc_got := pc_got cl;
                                 pc_sent := S (pc_sent cl); pc_hist := pc_hist cl; pc_closing := pc_closing cl |}
         end in
@@ -316,7 +318,7 @@ Definition on_request (st : pst) (c : nat) (m : cmsg) : pst :=
         let mid := next_mid st1 in
         let seqno := match lookup c (clients st1) with Some cl => pc_sent cl | None => O end in
         let pm := {| pm_client := c; pm_sm := smsg_of m (groups_for m);
-                     pm_reqs := map (fun sf => (fst sf, cf_req (snd sf))) (cm_body m); pm_seq := seqno |} in
+                     pm_reqs := map (fun sf => (fst sf, cf_req (snd sf))) (cm_body m); pm_seq := seqno; pm_moved := [] |} in
         let st2 := bump_mid (set_msg st1 mid pm) in
         let st3 := fold_left (fun s t => enqueue_out s (snd t) (FReq mid (fst t))) targets st2 in
         match lookup c (clients st3) with
@@ -413,7 +415,7 @@ Definition run_task (st : pst) (order : nat -> list N) (t : ptask) : pst :=
                                                  ps_initializing := ps_initializing sv; ps_step := ps_step sv; ps_left := ps_left sv;
                                                  ps_outq := []; ps_inq := ps_inq sv ++ q';
                                                  ps_got := ps_got sv ++ concat (map (frag_req st) q');
-                                                 ps_written := ps_written sv ++ q'; ps_taken := ps_taken sv |} in
+                                                 ps_written := ps_written sv ++ map (fun f => (f, frag_req st f)) q'; ps_taken := ps_taken sv |} in
                    if cf_timeout (cfg st)
                    then set_inflight st1 (inflight st1 ++ map (fun f => (s, f)) (filter (fun f => match f with FReq _ _ => true | FProbe => false end) q'))
                    else st1
@@ -452,7 +454,15 @@ Definition parse_moved (ty : N) (rsp : bytes) : bytes :=
     end.
 
 (* OnMoved: re-send the fragment to the named node, or complete the request with an error *)
-Definition on_moved (st : pst) (f : fragref) (mid : nat) (addr : bytes) : pst :=
+Definition mark_moved (st : pst) (mid : nat) (slot : N) : pst :=
+  match lookup mid (msgs st) with
+  | Some m => set_msg st mid {| pm_client := pm_client m; pm_sm := pm_sm m; pm_reqs := pm_reqs m; pm_seq := pm_seq m;
+                                pm_moved := slot :: pm_moved m |}
+  | None => st
+  end.
+
+Definition on_moved (st0 : pst) (f : fragref) (mid : nat) (addr : bytes) : pst :=
+  let st := mark_moved st0 mid (frag_slot f) in
   let fail e :=
     let st1 := fail_msg st mid e in
     match lookup mid (msgs st1) with Some m => flush_if_open st1 (pm_client m) | None => st1 end in
@@ -505,7 +515,7 @@ Definition on_reply (st : pst) (s : nat) (ty : N) (rsp : bytes) : result pst :=
                     | Fine (Some sm') =>
                         if is_auth_failure ty then RShutdown
                         else
-                          let st1 := set_msg st0 mid {| pm_client := pm_client m; pm_sm := sm'; pm_reqs := pm_reqs m; pm_seq := pm_seq m |} in
+                          let st1 := set_msg st0 mid {| pm_client := pm_client m; pm_sm := sm'; pm_reqs := pm_reqs m; pm_seq := pm_seq m; pm_moved := pm_moved m |} in
                           match lookup (pm_client m) (clients st1) with
                           | None => ROk st1
                           | Some cl =>
